@@ -17,15 +17,35 @@ OBLIGATIONS = [NS + t for t in [
     "valid_eq_violation", "valid_eq_zero_iff", "vgrad_length_of_compatible",
     "criterion_ge_violation", "makeRo1_pos", "miu_nonneg_invariant", "al_best_violation_le_criterion",
     "al_converged_feasible", "al_converged_feasible_solver", "al_state_constraints_recomputed",
+    "al_iteration_count", "al_returned_point", "al_penalty_schedule", "al_state_residuals",
+    # the outer loop of the linear-penalty / quadratic-penalty solvers (Model/PenaltySolver.lean)
+    "penSolve_fin", "pen_converged_stopping_test", "pen_converged_step_small", "pen_converged_not_feasible",
+    "pen_penalty_schedule", "pen_state_constraints_recomputed", "pen_returned_point", "pen_iteration_count",
+    "pen_start_points", "pen_status_meaning", "pen_inner_precision",
+    "linear_penalty_solver_inner_objective", "quadratic_penalty_solver_inner_objective",
+    "penLoop_fin", "penStep_run", "Sched.call", "lastValid_mem",
+    # solver_state_t: Lagrangian gradient, KKT residuals, stored multipliers (Model/PenaltyState.lean)
+    "lagrangian_grad_eq_def", "kkt3_eq_zero_iff", "kktAll_le_imp_eps_kkt", "al_returned_multipliers", "zero_multipliers_state",
+    "foldl_axpy_spec", "assignMult_spec", "alLoop_multInv",
 ]]
 TRUSTED = [
-    "Lean 4.33.0 kernel + the Mathlib modules imported by Proofs/Penalty.lean, Proofs/AugLag.lean, Props/C05.lean",
+    "Lean 4.33.0 kernel + the Mathlib modules imported by Proofs/Penalty.lean, Proofs/AugLag.lean, Proofs/PenaltySolver.lean, "
+    "Proofs/PenaltyState.lean, "
+    "Props/C05.lean",
     "axioms: at most propext, Classical.choice, Quot.sound (audited per theorem on every run)",
-    "hand-written model NanoVerif/Model/Constraint.lean + Model/Penalty.lean of constraint.cpp, penalty.cpp, augmented.cpp, "
-    "state.cpp (update_constraints, converged), solver.cpp (done); tied to the code by the correspondence run "
+    "hand-written model NanoVerif/Model/Constraint.lean + Model/Penalty.lean + Model/PenaltySolver.lean + Model/PenaltyState.lean of constraint.cpp, "
+    "function/penalty.cpp, augmented.cpp, solver/penalty.cpp, state.cpp (update_constraints, converged, kkt_optimality_test1/2), "
+    "solver.cpp (done, more_precise); tied to the code by the correspondence run "
     "(harness/c05.cpp on the real library vs the compiled Lean driver at Float): penalties from the dumped evaluations "
     "value-exact, constraint kinds within rtol 1e-12 / atol 1e-11, the AL outer loop by oracle-replay of the "
-    "augmented.outer / augmented.return / solver.done hooks, every decision and number value-exact",
+    "augmented.outer / augmented.return / solver.done hooks, every decision and number value-exact; the outer loop of the two "
+    "penalty solvers by oracle-replay of the penalty.outer / solver.done hooks (penalty parameter, decisions, starting points, "
+    "returned point, the value the inner solver reports = the model's penalty function with that parameter: value-exact; the "
+    "returned state's constraint values and feasibility residuals from the coefficients: rtol 1e-12 / atol 1e-11); for both solver "
+    "families also value-exact: the point the inner solver is started at (first lsearch.begin / osga.iter record of each inner "
+    "solve), the value the inner solver reports at its answer = the model's penalty / augmented-Lagrangian function with the "
+    "iteration's parameters, and kkt_optimality_test3/4/5 of the returned state (the only window on m_meq, m_mineq, m_lgx) = "
+    "the model's stored multipliers and Lagrangian gradient from the dumped gradients",
     "tools/props/c05.py generator + exact-rational (fractions.Fraction) oracle of the header formulas; harness/c05.cpp; "
     "g++/libstdc++/Eigen",
 ]
@@ -40,14 +60,24 @@ ASSUMPTIONS = [
     "function_t::constrain/compatible for the coefficient kinds: vgrad_length_of_compatible)",
     "the parameter domains registered by solver_augmented_lagrangian_t (gamma > 1, miu_max > 0) are hypotheses of the "
     "loop theorems; solver->more_precise only affects the oracle",
+    "penalty solvers: the inner solver (with the objective) is an arbitrary function of the outer iteration and the loop state "
+    "returning a point and the two validity flags (cstate.valid(), bstate.valid() after the update); penalty0 > 0, eta > 1, "
+    "0 < epsilonK <= 1, epsilon0 > 0 (the registered domains) are hypotheses of the schedule theorems only; the inner "
+    "precision epsilon0 * epsilonK^m is modelled and proved but not observed by any hook (model only); "
+    "`converged` of the penalty solvers carries NO feasibility guarantee (pen_converged_not_feasible, replayed on the code: "
+    "corpus) — the statement promises feasibility for the augmented-Lagrangian solver only",
 ]
 RULE = ("pen eval: objectives (15 registered functions through the factory, random quadratics) x 0..8 constraints of the 11 "
         "kinds (plus deliberately incompatible ones) x x in [-5,5]^n x ro in [1e-3,1e6] x multipliers (zero, moderate, 1e6); "
         "a third of the cases use dyadic data with points exactly on constraint boundaries (h = 0, g = 0) or feasible; "
         "al solve: random convex QPs/LPs through make_function(program), quadratics/registered functions with "
         "ball/box/linear/quadratic constraints, eps in [1e-10,1e-4], random x0, default and varied tau/gamma/miu_max/"
-        "lambda bounds/max_outer_iters; a pen case is non-trivial when it has >= 1 equality, >= 1 violated and >= 1 "
-        "satisfied inequality; an al case when it has >= 1 constraint; distinct by op text")
+        "lambda bounds/max_outer_iters; ps solve: both penalty solvers x quadratics/registered functions/QPs x 0..8 constraints of "
+        "the 11 kinds (box, ball, linear, quadratic, functional; feasible sets built around a point, 1/8 empty feasible sets, 1/8 "
+        "unconstrained) x eps in [1e-10,1e-4] x random x0 (4%: the objective overflows at x0, the inner solver fails) x the "
+        "registered defaults or eta in (1,1e3], epsilon0 in [1e-10,1e-2], epsilonK in [0.1,1], penalty0 in [1e-3,1e3], "
+        "max_outer_iters in {10,11,20,100}, max_evals in {50..5000}; a pen case is non-trivial when it has >= 1 equality, >= 1 "
+        "violated and >= 1 satisfied inequality; an al / ps case when it has >= 1 constraint; distinct by op text")
 FLAVOUR = {"quick": "plain", "thorough": "asan"}
 HARNESS_TIMEOUT = 1500
 RTOL = 1e-12   # tolerant sections only (Eigen reductions); everything else is compared by value, exactly
@@ -487,12 +517,102 @@ def gen_al(rng, tier):
             f"{H(miu_max)} {H(lmin)} {H(lmax)}")
 
 
+PS_CORE_KINDS = ["const", "lineq", "linin", "quadin", "quadin"]
+
+
+def gen_ps_problem(rng, g):
+    """a constrained problem for the penalty solvers: feasible set built around a point xs (so that it is non-empty), all 11
+    constraint kinds, 0..8 constraints; now and then an empty feasible set (the solvers must still stop and report honestly)"""
+    n = rng.range(1, 5)
+    xs = g.point(n, 2.0)
+    cons = []
+    style = rng.choice(["none", "box", "ball", "linear", "mixed", "mixed", "functional", "infeasible"])
+    obj = dict(kind="Q", Q=g.sym(n, 1.0, psd=True), c=[g.coef(3.0) for _ in range(n)])
+    if n >= 2 and rng.chance(0.3):
+        obj = dict(kind="S", id=rng.choice(["sphere", "trid", "rosenbrock", "axis-ellipsoid", "rotated-ellipsoid", "sargan",
+                                            "chung-reynolds", "zakharov"]))
+    if style == "none":
+        pass
+    elif style == "box":
+        for i in range(n):
+            if rng.chance(0.7):
+                cons.append(dict(kind="min", value=xs[i] - abs(g.coef(2.0)), dim=i))
+            if rng.chance(0.7):
+                cons.append(dict(kind="max", value=xs[i] + abs(g.coef(2.0)), dim=i))
+    elif style == "ball":
+        cons.append(dict(kind="ballin" if rng.chance(0.7) else "balleq", origin=[v + g.coef(0.5) for v in xs],
+                         radius=abs(g.coef(2.0)) + 0.75))
+        if rng.chance(0.5):
+            i = rng.below(n)
+            cons.append(dict(kind="min", value=xs[i] - abs(g.coef(2.0)) - 0.25, dim=i))
+    elif style == "linear":
+        p = rng.range(0, max(0, n - 1)); m = rng.range(0 if p > 0 else 1, 5)
+        for _ in range(p):
+            q = [g.coef() for _ in range(n)]
+            cons.append(dict(kind="lineq", q=q, r=float(-evalf(dict(kind="lineq", q=q, r=0.0), xs, n))))
+        for _ in range(m):
+            q = [g.coef() for _ in range(n)]
+            slack = 0.0 if rng.chance(0.4) else abs(g.coef(2.0))
+            cons.append(dict(kind="linin", q=q, r=float(-evalf(dict(kind="linin", q=q, r=0.0), xs, n)) - slack))
+        if rng.chance(0.4):
+            obj = dict(kind="QP" if rng.chance(0.5) else "Q", Q=g.sym(n, 1.0, psd=True), c=[g.coef() for _ in range(n)])
+    elif style in ("mixed", "functional"):
+        kinds = PS_CORE_KINDS + ["min", "max", "ballin", "quadeq", "balleq"]
+        if style == "functional":
+            kinds = kinds + ["fin", "fin", "fin", "feq"]
+        for _ in range(rng.range(1, 8)):
+            c = gen_constraint(g, n, xs, "feasible" if g.exact or rng.chance(0.8) else "any", kinds=kinds)
+            if c["kind"] == "quadin" and rng.chance(0.7):
+                c["P"] = g.nonsym(n, 1.0, psd=True) if rng.chance(0.5) else g.sym(n, 1.0, psd=True)
+                c["r"] = float(-evalf(dict(kind="quadin", rows=n, cols=n, P=c["P"], q=c["q"], r=0.0), xs, n)) - abs(g.coef(2.0))
+            cons.append(c)
+        if rng.chance(0.05):
+            cons.append(spoil(g, n, dict(kind="linin", q=[1.0] * n, r=0.0)))
+    else:
+        # x_i <= a and x_i >= a + gap: no feasible point
+        i = rng.below(n); a = g.coef(2.0); gap = abs(g.coef(2.0)) + 0.25
+        cons.append(dict(kind="max", value=a, dim=i))
+        cons.append(dict(kind="min", value=a + gap, dim=i))
+        if rng.chance(0.5):
+            cons.append(dict(kind="ballin", origin=list(xs), radius=1.0))
+    return n, obj, cons, xs
+
+
+def gen_ps(rng, tier):
+    g = G(rng, rng.chance(0.2))
+    n, obj, cons, xs = gen_ps_problem(rng, g)
+    which = rng.choice(["lin", "quad", "quad"])
+    x0 = list(xs) if rng.chance(0.1) else g.point(n)
+    if rng.chance(0.04):
+        # exp(1 + |x|^2 / n) overflows (or nearly) at the start: the inner solver fails (`!iter_ok`: the penalty grows, bstate stays)
+        n = max(n, 2)
+        obj = dict(kind="S", id="exponential")
+        cons = [c for c in cons if c["kind"] in ("min", "max") and c["dim"] < n][:2]
+        x0 = [rng.choice([-1.0, 1.0]) * rng.uniform(24.0, 34.0) for _ in range(n)]
+    eps = 10.0 ** rng.uniform(-10.0, -4.0)
+    if rng.chance(0.1):
+        eps = rng.choice([1e-10, 1e-4])
+    # the registered defaults (penalty.cpp:11-14, 67, 86) …
+    max_evals, eta, eps0, epsK, penalty0, max_outers = 1000, 5.0, (1e-8 if which == "lin" else 1e-6), 0.5, 10.0, 20
+    if rng.chance(0.6):
+        # … and the registered domains, ends included
+        max_evals = rng.choice([50, 200, 1000, 5000])
+        eta = rng.choice([1.0 + 2.0 ** -20, 1.01, 1.5, 2.0, 5.0, 10.0, 100.0, 1e3])
+        eps0 = rng.choice([1e-10, 1e-8, 1e-6, 1e-4, 1e-2])
+        epsK = rng.choice([0.1, 0.5, 0.9, 1.0])
+        penalty0 = rng.choice([1e-3, 0.1, 1.0, 10.0, 1e3]) if rng.chance(0.7) else 10.0 ** rng.uniform(-3.0, 3.0)
+        max_outers = rng.choice([10, 11, 20, 100])
+    return (f"ps solve {which} {problem_text(n, obj, cons)} {FL(x0)} {H(eps)} {max_evals} {H(eta)} {H(eps0)} {H(epsK)} "
+            f"{H(penalty0)} {max_outers}")
+
+
 def gen(rng, tier):
     ops = []
     cp = os.path.join(vlib.VERIF, "corpus", "C05", "ops.txt")
     if os.path.exists(cp):
         ops += [l.strip() for l in open(cp) if l.strip() and not l.startswith("#")]
     npen, nal, nbig = (4000, 800, 50) if tier == "quick" else (24000, 5000, 400)
+    nps = 1500 if tier == "quick" else 6000
     r1 = rng.fork()
     for _ in range(npen):
         ops.append(gen_pen(r1))
@@ -501,6 +621,9 @@ def gen(rng, tier):
     r2 = rng.fork()
     for _ in range(nal):
         ops.append(gen_al(r2, tier))
+    r3 = rng.fork()
+    for _ in range(nps):
+        ops.append(gen_ps(r3, tier))
     return ops
 
 
@@ -510,12 +633,14 @@ def gen(rng, tier):
 def nontrivial(op):
     t = Toks(op)
     fam = t.s(); t.s()
+    if fam == "ps":
+        t.s()
     try:
         n, obj, cons = parse_problem(t)
     except Exception:
         return False
     acc = [c for c in cons if compatible(c, n)]
-    if fam == "al":
+    if fam in ("al", "ps"):
         return len(acc) >= 1
     x = frs(t.fs())
     eq = viol = sat = 0
@@ -538,6 +663,8 @@ def distribution(ops):
     for op in ops:
         t = Toks(op)
         fam = t.s(); t.s()
+        if fam == "ps":
+            fam = "ps-" + t.s()
         try:
             n, obj, cons = parse_problem(t)
         except Exception:
@@ -566,6 +693,9 @@ def classify(op, kind, detail):
 def shrink_candidates(op):
     t = Toks(op)
     fam = t.s(); name = t.s()
+    head = f"{fam} {name}"
+    if fam == "ps":
+        head += " " + t.s()
     try:
         n, obj, cons = parse_problem(t)
         if fam == "pen":
@@ -588,7 +718,7 @@ def shrink_candidates(op):
                     del m2[sum(1 for c in before if not is_eq(c))]
             yield f"pen eval {problem_text(n, obj, rest)} {FL(x)} {H(ro)} {FL(l2)} {FL(m2)}"
         else:
-            yield f"al solve {problem_text(n, obj, rest)} {tail}"
+            yield f"{head} {problem_text(n, obj, rest)} {tail}"
 
 
 # ---------------------------------------------------------------------------------------------------------
@@ -782,15 +912,25 @@ def oracle_pen(t, r, dump):
 
 def oracle_al(t, r, answers):
     n, obj, cons = parse_problem(t)
+    x0 = t.fs()
     if r.s() != "ok":
         return "implementation did not answer ok"
     status = r.int(); nrec = r.int()
     acc = [c for c in cons if compatible(c, n)]
     neq = sum(1 for c in acc if is_eq(c)); nin = len(acc) - neq
     last = None
+    mults = []
+    obs = []
     for _ in range(nrec):
         outer = r.int(); iter_ok = r.int(); crit = r.s(); conv = r.int(); xconv = r.int(); ro = r.f()
         lam = r.fs(); miu = r.fs(); old = r.f(); bx = r.fs(); bceq = r.fs(); bcineq = r.fs()
+        sx = None
+        if r.t[r.i] == "-":
+            r.s()
+        else:
+            sx = r.fs()
+        cfx = r.s()
+        obs.append(dict(ro=ro, lam=lam, miu=miu, bx=bx, sx=sx, cfx=(h2f(cfx) if cfx != "-" else None)))
         if len(lam) != neq or len(miu) != nin or len(bceq) != neq or len(bcineq) != nin:
             return "trace: vector sizes differ from the numbers of equalities / inequalities"
         if any(m < 0 for m in miu):
@@ -798,7 +938,9 @@ def oracle_al(t, r, answers):
         if not (ro > 0):
             return f"penalty parameter: ro = {ro!r} at outer iteration {outer}"
         last = (iter_ok, crit, conv)
+        mults.append((lam, miu))
     x = r.fs(); ceq = r.fs(); cineq = r.fs(); r.f()
+    kkt345 = [r.s(), r.s(), r.s()]
     while r.s() != "!":
         pass
     eps = r.f(); kkt1 = r.f(); kkt2 = r.f(); valid = r.int(); fx = r.f()
@@ -827,7 +969,28 @@ def oracle_al(t, r, answers):
         a = Toks(answers)
         a.f(); a.f(); a.fs(); a.fs()
         for k in range(a.int()):
-            iter_ok = a.int(); a.int(); cx = a.fs(); cceq = a.fs(); ccineq = a.fs()
+            iter_ok = a.int(); a.int(); cx = a.fs(); cceq = a.fs(); ccineq = a.fs(); a.int(); has_obj = a.int(); fcx = a.f()
+            o = obs[k]
+            # the inner solver is started where the best state is
+            if o["sx"] is not None:
+                if not same_vec(o["sx"], o["bx"]):
+                    return f"starting point: the inner solver of outer iteration {k} was not started at the best state's point"
+                STATS["al/start-observed"] = STATS.get("al/start-observed", 0) + 1
+            # … and minimises the augmented Lagrangian of the documented formula with this iteration's ro, lambda, miu
+            if has_obj and iter_ok and o["cfx"] is not None and finite(fcx) and finite(o["ro"]) and \
+                    all(finite(v) for v in cceq + ccineq + o["lam"] + o["miu"]):
+                ro_ = Fr(o["ro"])
+                te = [Fr(h) + Fr(l) / ro_ for h, l in zip(cceq, o["lam"])]
+                ti = [max(Fr(0), Fr(g) + Fr(m) / ro_) for g, m in zip(ccineq, o["miu"])]
+                tea = [abs(Fr(h)) + abs(Fr(l) / ro_) for h, l in zip(cceq, o["lam"])]
+                tia = [abs(Fr(g)) + abs(Fr(m) / ro_) for g, m in zip(ccineq, o["miu"])]
+                want = Fr(fcx) + ro_ / 2 * (sum(v * v for v in te) + sum(v * v for v in ti))
+                scale = abs(Fr(fcx)) + ro_ / 2 * (sum(v * v for v in tea) + sum(v * v for v in tia)) + 1
+                why = near(o["cfx"], want, scale, f"inner objective: value reported by the inner solver at outer iteration {k} vs the "
+                           f"augmented Lagrangian with this iteration's ro, lambda, miu")
+                if why:
+                    return why
+                STATS["al/objective-observed"] = STATS.get("al/objective-observed", 0) + 1
             if not iter_ok or not all(v == v and not math.isinf(v) for v in cx):
                 continue
             ce = frs(cx)
@@ -846,6 +1009,45 @@ def oracle_al(t, r, answers):
     want2 = max([0.0] + [abs(v) for v in ceq])
     if valid and (kkt1 != want1 or kkt2 != want2):
         return f"kkt residuals: ({kkt1!r}, {kkt2!r}) differ from those of the stored constraint values ({want1!r}, {want2!r})"
+    # the multipliers stored in the returned state (seen through test3, test4, test5): those of the inequalities are non-negative;
+    # complementarity and the Lagrangian gradient are those of the multiplier estimates of one of the outer iterations whose answer
+    # is the returned point (zero multipliers when the starting point is returned)
+    if valid and xe is not None and answers is not None and "-" not in kkt345:
+        t3, t4, t5 = (h2f(v) for v in kkt345)
+        if t3 != 0.0:
+            return f"kkt residuals: test3 = {t3!r}: the returned state stores a negative multiplier for an inequality"
+        gxr, grads = returned_gradients(answers, "al")
+        a = Toks(answers)
+        a.f(); a.f(); a.fs(); a.fs()
+        cands = [([0.0] * neq, [0.0] * nin)] if x == x0 else []
+        for k in range(a.int()):
+            iter_ok = a.int(); a.int(); cx = a.fs(); a.fs(); a.fs(); a.int(); a.int(); a.f()
+            if iter_ok and cx == x:
+                cands.append(mults[k])
+        ok = False
+        detail = ""
+        for lam, miu in cands:
+            w4 = max([Fr(0)] + [abs(Fr(m) * Fr(g)) for m, g in zip(miu, cineq)])
+            lg = [Fr(v) for v in gxr]; sc = [abs(Fr(v)) for v in gxr]
+            ie = ii = 0
+            for e, gc in grads:
+                if e:
+                    m = Fr(lam[ie]); ie += 1
+                else:
+                    m = Fr(miu[ii]); ii += 1
+                for i in range(n):
+                    lg[i] += m * Fr(gc[i]); sc[i] += abs(m * Fr(gc[i]))
+            w5 = max([Fr(0)] + [abs(v) for v in lg])
+            tol5 = Fr(1e-12) * (max([Fr(0)] + sc) + 1)
+            if abs(Fr(t4) - w4) <= Fr(1e-12) * (w4 + Fr(1, 10 ** 300)) and abs(Fr(t5) - w5) <= tol5:
+                ok = True
+                break
+            detail = f"(test4, test5) = ({t4!r}, {t5!r}), e.g. ({float(w4)!r}, {float(w5)!r}) expected"
+        if cands and not ok:
+            return f"kkt residuals: complementarity / Lagrangian gradient of the returned state match no logged multiplier estimate: {detail}"
+        if not cands:
+            return "returned point: neither x0 nor the answer of a valid outer iteration"
+        STATS["al/kkt345"] = STATS.get("al/kkt345", 0) + 1
     STATS[f"al/status={status}"] = STATS.get(f"al/status={status}", 0) + 1
     if status == 1:
         if xe is None:
@@ -861,6 +1063,218 @@ def oracle_al(t, r, answers):
     return None
 
 
+def finite(v):
+    return v == v and not math.isinf(v)
+
+
+def linf(xs):
+    return max([Fr(0)] + [abs(v) for v in xs])
+
+
+def returned_gradients(answers, fam="ps"):
+    """(objective gradient, [(is_eq, constraint gradient)]) of the returned state, dumped by the harness after the records"""
+    a = Toks(answers)
+    if fam == "ps":
+        for _ in range(a.int()):
+            a.int(); a.f()
+        for _ in range(a.int()):
+            a.int(); a.int(); a.int(); a.fs(); a.f(); a.f()
+            for _ in range(a.int()):
+                a.int(); a.f()
+    else:
+        a.f(); a.f(); a.fs(); a.fs()
+        for _ in range(a.int()):
+            a.int(); a.int(); a.fs(); a.fs(); a.fs(); a.int(); a.int(); a.f()
+    a.int()
+    gx = a.fs()
+    grads = [(a.int(), a.fs()) for _ in range(a.int())]
+    return gx, grads
+
+
+def oracle_ps(t, r, answers):
+    """the clauses of the statement that concern the two penalty solvers (anchor src/solver/penalty.cpp) and what their
+    documentation promises, evaluated independently on the implementation's answer: the inner solver is given the linear /
+    quadratic penalty function of the documented formula with the penalty parameter penalty0 * eta^k, started where the
+    previous outer iteration ended; the solver stops exactly when the iterate moved by less than epsilon (relative to
+    max(1, |x|_inf)) or the state became invalid, within max_outer_iters; the returned state is the last valid answer and
+    its stored constraint values / feasibility residuals are those of the problem at the returned point"""
+    which = t.s()
+    n, obj, cons = parse_problem(t)
+    x0 = t.fs(); eps = t.f(); t.int(); eta = t.f(); t.f(); t.f(); penalty0 = t.f(); max_outers = t.int()
+    if r.s() != "ok":
+        return "implementation did not answer ok"
+    status = r.int(); nrec = r.int()
+    acc = [c for c in cons if compatible(c, n)]
+    neq = sum(1 for c in acc if is_eq(c)); nin = len(acc) - neq
+    recs = []
+    for _ in range(nrec):
+        penalty = r.f(); iter_ok = r.int(); xconv = r.s(); dconv = r.s(); bx = r.fs()
+        sx = None
+        if r.t[r.i] == "-":
+            r.s()
+        else:
+            sx = r.fs()
+        cfx = r.s()
+        recs.append(dict(penalty=penalty, iter_ok=iter_ok, bx=bx, sx=sx, cfx=(h2f(cfx) if cfx != "-" else None),
+                         dconv=(int(dconv) if dconv != "-" else None)))
+    x = r.fs()
+    kkt345 = [r.s(), r.s(), r.s()]
+    if r.s() != "~":
+        return "malformed result"
+    ceq = r.fs(); cineq = r.fs(); kkt1 = r.f(); kkt2 = r.f()
+    if r.s() != "!":
+        return "malformed result"
+    leps = r.f(); valid = r.int(); fx = r.f(); has_re = r.int(); hre = r.fs(); gre = r.fs()
+    for rec in recs:
+        rec["outer"] = r.int(); rec["eps"] = r.f(); rec["xconv"] = r.int(); rec["cx"] = r.fs()
+    if len(x) != n or len(ceq) != neq or len(cineq) != nin:
+        return "returned state: sizes"
+    if status not in (0, 1, 2):
+        return f"status: {status} is none of max_iters / converged / failed"
+    # -- the budget and the schedule of the penalty parameter
+    if nrec > max_outers:
+        return f"outer iterations: {nrec} > max_outer_iters = {max_outers}"
+    if nrec == 0:
+        return "outer iterations: none"
+    for k, rec in enumerate(recs):
+        if rec["outer"] != k:
+            return f"outer iterations: record {k} carries the index {rec['outer']}"
+        if rec["eps"] != eps:
+            return f"epsilon: the loop uses {rec['eps']!r}, the parameter is {eps!r}"
+        want = Fr(penalty0) * Fr(eta) ** k
+        if finite(rec["penalty"]):
+            why = near(rec["penalty"], want, want, f"penalty schedule: outer iteration {k} (penalty0 * eta^{k})", rel=1e-12)
+            if why:
+                return why
+        elif want < Fr(2) ** 1023:
+            return f"penalty schedule: non-finite penalty at outer iteration {k}, penalty0 * eta^k = {float(want)!r}"
+        if not rec["penalty"] > 0:
+            return f"penalty schedule: non-positive penalty at outer iteration {k}"
+        if k > 0 and not rec["penalty"] >= recs[k - 1]["penalty"]:
+            return f"penalty schedule: decreasing at outer iteration {k}"
+    # -- the starting points: x0, then the last valid answer
+    cur = x0
+    for k, rec in enumerate(recs):
+        if not same_vec(rec["bx"], cur):
+            return f"starting point: outer iteration {k} starts from a point that is not the last valid answer (or x0)"
+        if rec["sx"] is not None and not same_vec(rec["sx"], cur):
+            return f"starting point: the inner solver of outer iteration {k} was not started at the last valid answer (or x0)"
+        if rec["sx"] is not None:
+            STATS["ps/start-observed"] = STATS.get("ps/start-observed", 0) + 1
+        if rec["iter_ok"]:
+            cur = rec["cx"]
+    if not same_vec(x, cur):
+        return "returned point: not the last valid answer of the inner solver (or x0)"
+    # -- the stopping rule, recomputed in exact arithmetic from the logged points; decided only outside the rounding margin
+    stops = []
+    for k, rec in enumerate(recs):
+        if not rec["iter_ok"]:
+            if rec["cfx"] is not None:
+                return "malformed result"
+            stops.append(None)
+            continue
+        if not all(finite(v) for v in rec["cx"]) or len(rec["cx"]) != n:
+            return f"inner answer: reported valid with a non-finite point at outer iteration {k}"
+        bxe = frs(rec["bx"]); cxe = frs(rec["cx"])
+        dx = linf([a - b for a, b in zip(cxe, bxe)])
+        thr = Fr(eps) * max(Fr(1), linf(bxe))
+        margin = Fr(1e-12) * (thr + linf(bxe) * Fr(2) ** -50)
+        verdict = True if dx < thr - margin else (False if dx > thr + margin else None)
+        if verdict is not None and (bool(rec["xconv"]) != verdict or bool(rec["dconv"]) != verdict):
+            return (f"stopping test: |x_new - x_old|_inf = {float(dx)!r} vs epsilon * max(1, |x_old|_inf) = {float(thr)!r} at outer "
+                    f"iteration {k}, the loop decided {rec['dconv']} (hook: {rec['xconv']})")
+        stops.append(verdict)
+    last = recs[-1]
+    for k, rec in enumerate(recs[:-1]):
+        if stops[k] is True:
+            return f"stopping rule: the test held at outer iteration {k} but the loop went on"
+    if status == 1:
+        if not last["iter_ok"] or stops[-1] is False:
+            return "status: converged reported although the stopping test does not hold at the last outer iteration"
+    elif stops[-1] is True:
+        return f"status: the stopping test holds at the last outer iteration but the status is {status}"
+    if status == 0 and nrec != max_outers:
+        return f"status: max_iters reported after {nrec} of {max_outers} outer iterations"
+    if status == 2 and (not last["iter_ok"] or valid):
+        return "status: failed reported with a valid returned state"
+    if status == 0 and last["iter_ok"] and not valid:
+        return "status: max_iters reported with an invalid returned state"
+    # -- the inner solver was given the documented penalty function with the penalty parameter of its iteration
+    if answers is not None:
+        a = Toks(answers)
+        for _ in range(a.int()):
+            a.int(); a.f()
+        if a.int() != nrec:
+            return "malformed answers"
+        for k, rec in enumerate(recs):
+            a.int(); a.int(); a.int(); a.fs(); cfx = a.f(); fcx = a.f()
+            dumps = [(a.int(), a.f()) for _ in range(a.int())]
+            if not rec["iter_ok"] or not finite(fcx) or not finite(rec["penalty"]):
+                continue
+            if not (cfx == rec["cfx"]):
+                return "malformed answers"
+            c = Fr(rec["penalty"])
+            hs = [Fr(v) for e, v in dumps if e]; gs = [max(Fr(0), Fr(v)) for e, v in dumps if not e]
+            if which == "lin":
+                pen = c * (sum(abs(h) for h in hs) + sum(gs))
+            else:
+                pen = c * (sum(h * h for h in hs) + sum(gv * gv for gv in gs))
+            why = near(cfx, Fr(fcx) + pen, abs(Fr(fcx)) + pen + 1,
+                       f"inner objective: value reported by the inner solver at outer iteration {k} vs the "
+                       f"{'linear' if which == 'lin' else 'quadratic'} penalty with penalty0 * eta^k")
+            if why:
+                return why
+    # -- the constraint values stored in the returned state equal those recomputed from the problem
+    if not all(finite(v) for v in x):
+        if status == 1:
+            return "converged: reported at a non-finite point"
+        return None
+    xe = frs(x)
+    ie = ii = 0
+    for c in acc:
+        ex = constraint_exact(c, xe, n)
+        if is_eq(c):
+            stored = ceq[ie]; harness = hre[ie] if has_re else None; ie += 1
+        else:
+            stored = cineq[ii]; harness = gre[ii] if has_re else None; ii += 1
+        if ex is None:
+            continue
+        v, _, a_, _ = ex
+        why = near(stored, v, a_ + 1, f"stored constraint value: {c['kind']} in the returned state")
+        if why:
+            return why
+        if harness is not None:
+            why = near(harness, v, a_ + 1, f"harness recomputation: {c['kind']}", rel=1e-13)
+            if why:
+                return why
+    want1 = max([0.0] + [max(v, 0.0) for v in cineq])
+    want2 = max([0.0] + [abs(v) for v in ceq])
+    if valid and (kkt1 != want1 or kkt2 != want2):
+        return f"kkt residuals: ({kkt1!r}, {kkt2!r}) differ from those of the stored constraint values ({want1!r}, {want2!r})"
+    # the penalty solvers estimate no multipliers: the returned state carries zero multipliers, so that the dual-feasibility and the
+    # complementarity residuals vanish and the Lagrangian gradient is the objective's gradient at the returned point
+    if valid and answers is not None:
+        if "-" in kkt345:
+            return "malformed result"
+        t3, t4, t5 = (h2f(v) for v in kkt345)
+        gxr = returned_gradients(answers)[0]
+        want5 = max([0.0] + [abs(v) for v in gxr])
+        if t3 != 0.0 or t4 != 0.0 or t5 != want5:
+            return (f"kkt residuals: (test3, test4, test5) = ({t3!r}, {t4!r}, {t5!r}) of the returned state, zero multipliers give "
+                    f"(0, 0, {want5!r})")
+    STATS[f"ps/status={status}"] = STATS.get(f"ps/status={status}", 0) + 1
+    if any(not rec["iter_ok"] for rec in recs):
+        STATS["ps/inner-failed"] = STATS.get("ps/inner-failed", 0) + 1
+    if status == 1 and max(want1, want2) > eps:
+        # NOT a violation of the statement (it promises feasibility for the augmented-Lagrangian solver only): counted
+        STATS["ps/converged-infeasible"] = STATS.get("ps/converged-infeasible", 0) + 1
+    return None
+
+
+def same_vec(a, b):
+    return len(a) == len(b) and all(u == v or (u != u and v != v) for u, v in zip(a, b))
+
+
 def oracle(aug, res):
     op = aug.split(" | ")[0]
     t = Toks(op)
@@ -871,4 +1285,6 @@ def oracle(aug, res):
     if fam == "pen":
         return oracle_pen(t, r, None)
     parts = aug.split(" | ")
+    if fam == "ps":
+        return oracle_ps(t, r, parts[1] if len(parts) > 1 else None)
     return oracle_al(t, r, parts[1] if len(parts) > 1 else None)
